@@ -39,7 +39,34 @@ def main(argv=None):
         return 1 if acc.violations else 0
     specs = mod.shards(a.tier, seed)
     timeout = getattr(mod, "SHARD_TIMEOUT", {"quick": 240, "thorough": 1500})[a.tier]
+    opt_dump = os.environ.get("VERIF_OPT_PASS_DUMP")
+    if opt_dump:
+        # second pass of the same check inside an interpreter started with -O (assert statements stripped): a third of
+        # the shards; the accumulator goes back to the parent run, which decides
+        acc = runner.run_shards(mod, [sp for k, sp in enumerate(specs) if k % 3 == seed % 3], timeout)
+        acc.count("shards_run_under_python_O", len([1 for k in range(len(specs)) if k % 3 == seed % 3]))
+        acc.dump(opt_dump)
+        return 0
     acc = runner.run_shards(mod, specs, timeout)
+    if os.environ.get("VERIF_NO_OPT_PASS") != "1" and not sys.flags.optimize:
+        import subprocess, tempfile
+        fd, path = tempfile.mkstemp(prefix=f"{mod.ID}-optpass-", suffix=".json", dir=runner.SCRATCH)
+        os.close(fd)
+        env = dict(os.environ, VERIF_OPT_PASS_DUMP=path)
+        try:
+            r = subprocess.run([sys.executable, "-O", "-B", "-m", "vf.cli", a.check, "--tier", a.tier, "--seed", str(seed)], env=env,
+                               cwd=os.path.dirname(os.path.dirname(os.path.abspath(__file__))), capture_output=True, text=True, timeout=timeout * 2)
+            if r.returncode == 0 and os.path.getsize(path) > 0:
+                acc.absorb_file(path)
+                acc.note("a third of the shards ran a second time under python -O (assert statements stripped): the properties hold there as well or the violations are listed above")
+            else:
+                acc.inconclusive_because(f"python -O pass failed to run (exit {r.returncode}): {r.stderr[-300:]}")
+        except subprocess.TimeoutExpired:
+            acc.inconclusive_because("python -O pass exceeded its time budget")
+        finally:
+            for pth in (path, path + ".hashes"):
+                if os.path.exists(pth):
+                    os.unlink(pth)
     return runner.finish(mod, acc, a.tier, seed, t0)
 
 
